@@ -1,6 +1,8 @@
 import QuillModel.Extracted.Backend
+import QuillModel.Extracted.Queue
 import QuillModel.Props.C05
 import QuillModel.Props.C06
+import QuillModel.Props.C09Backend
 /-!
 Side-conditions of the ordering theorem (C05) and of the flush theorems (C06) for the facts extracted from the
 current headers (`BackendWorker.h`, `Logger.h`).
@@ -14,6 +16,10 @@ C06: the Flush branch of `_process_transit_event` flushes the active sinks uncon
 captures the flag; the flag is stored only after `pop_front`; every sink flush is wrapped in its own try/catch;
 `flush_log` retries a refused request in a loop, then waits on the flag; only `Event::Log` statements bump the
 failure counter. `flushOnlyValidLoggers = false` records that the flush also covers the sinks of loggers marked for removal and not erased yet (F12, repaired).
+
+C09 (end to end): `commit_read` publishes on drain (the `Params` extracted from `BoundedSPSCQueue.h`); on a blocking
+queue `log_statement` retries a refused reservation with the same size until it is granted and then writes
+(`blockingRetriesSameRequest`), with the timestamp taken before the first attempt.
 -/
 namespace Obligations
 open Backend
@@ -49,5 +55,25 @@ theorem C06_extracted (s0 : BSt) (h0 : StartF s0) (hg : s0.cfg.grace ≠ 0)
     (k : Nat) (r : Stmt) (hrk : r ∈ ((runOps s0 ops).th k).accepted)
     (hlt : r.ts < st.ts) : r ∈ ((runOps s0 ops).th k).popped :=
   C06_other_threads s0 h0 hg (hc.trans backendB_order_structure.1) ops hp i st f hst hk hf k r hrk hlt
+
+/-- what the end-to-end C09 theorems (the retry of `enqFlow`, the publication rule of the queue the model embeds)
+    assume of the code, as extracted -/
+theorem backendB_retry_structure :
+    Extracted.boundedParams.drainPublish = true ∧ Extracted.blockingRetriesSameRequest = true ∧
+    Extracted.timestampBeforeContext = true := by decide
+
+/-- C09 (a blocked log call resumes) for the code as extracted: every configuration that carries the extracted queue
+    parameters -/
+theorem C09_backend_extracted (s0 : BSt) (h0 : StartF s0) (hqp : s0.cfg.qp = Extracted.boundedParams) (pre : List Op)
+    (a : Nat) (x : Actor) (st : Stmt) (k : Nat) (hblk : s0.cfg.dropping = false)
+    (hx : (runOps s0 pre).actor a = some x) (hp : x.pend = .retry st k) (hsz : st.size ≤ s0.cfg.qcap)
+    (hcom : ∀ i, x.ctx = some i → ReadsCommitted (runOps s0 pre) i)
+    (hrun : (runOps s0 pre).backendGone = false) (dt : Nat) (hdt : s0.cfg.grace ≤ dt)
+    (suffix : List Op) (hq : ∀ o ∈ suffix, quietOp o = true) (hn : PB.pendingCount (runOps s0 pre) ≤ pollCount suffix)
+    (hk : st.kind = .log) (hk0 : k = 0) :
+    (resume (runOps (runOps s0 pre) (.front (.tick dt) :: suffix)) a).2 = s!"id={st.id} ret=1 ev=1 bytes={st.size}" := by
+  have h := (C09_blocked_call_resumes s0 h0 pre a x st k (by rw [hqp]; exact backendB_retry_structure.1) hblk hx hp hsz
+    hcom hrun dt hdt suffix hq hn).2.2 hk (Or.inl hk0)
+  rw [h.1, hk0]; exact C09_obs_ret1 st
 
 end Obligations
